@@ -195,7 +195,10 @@ func (syncService *SyncService[H]) WriteToStoreAndBroadcast(ctx context.Context,
 			(isGenesis && errors.Is(err, pubsub.ValidationError{Reason: pubsub.RejectValidationFailed})) {
 			return nil
 		}
-		return fmt.Errorf("failed to broadcast: %w", err)
+		// The item is committed to the chain by the time it gets here; that the P2P layer refuses it (after
+		// an unclean stop the P2P store may lag behind the chain, so the item does not connect to the
+		// store's head) must not stop block production.
+		syncService.logger.Error("failed to broadcast", "height", headerOrData.Height(), "error", err)
 	}
 	return nil
 }
